@@ -430,9 +430,10 @@ theorem slice_range {merge : α → α → α} {lo hi : α → Nat} (hR : RangeA
     intro j h
     obtain ⟨h0, hj⟩ := h 0 (by simp [Expr.atoms])
     simp only [Expr.atoms, List.getElem?_cons_zero, Nat.add_zero] at h0
-    rw [List.getElem?_eq_getElem hj] at h0
+    have hj' : j < L.length := by omega
+    rw [List.getElem?_eq_getElem hj'] at h0
     have hv : v = L[j] := by simpa using h0
-    have := hL.num j hj
+    have := hL.num j hj'
     simp only [Expr.eval, Expr.atoms, List.length_cons, List.length_nil]
     rw [hv]; omega
   | node l r ihl ihr =>
@@ -479,10 +480,11 @@ theorem sound_core {merge : α → α → α} {lo hi : α → Nat} (hR : RangeAl
     | atom t =>
       obtain ⟨h0, hj⟩ := hs 0 (by simp [Expr.atoms])
       simp only [Expr.atoms, List.getElem?_cons_zero, Nat.add_zero] at h0
-      rw [List.getElem?_eq_getElem hj] at h0
+      have hj' : j < L.length := by omega
+      rw [List.getElem?_eq_getElem hj'] at h0
       have ht : t = L[j] := by simpa using h0
       simp only [Expr.eval] at he
-      exact absurd (ht ▸ he.symm) (hL.sep j hj _ _)
+      exact absurd (ht ▸ he.symm) (hL.sep j hj' _ _)
     | node l r =>
       simp only [Expr.eval] at he
       obtain ⟨h1, h2⟩ := hR.inj _ _ _ _ he
@@ -493,20 +495,23 @@ theorem sound_core {merge : α → α → α} {lo hi : α → Nat} (hR : RangeAl
 
 /-! ### the true chain root is the value of a tree over the chain's leaves, in order -/
 
+def gmap (merge : α → α → α) (m : Nat × Expr α) : Nat × α := (m.1, m.2.eval merge)
+
 section truetree
 variable (merge : α → α → α)
 local notation "ev" => Expr.eval merge
-local notation "gm" => fun (m : Nat × Expr α) => (m.1, Expr.eval merge m.2)
+local notation "gm" => gmap merge
 
 theorem heights_map_gm (ms : List (Nat × Expr α)) : heights (ms.map gm) = heights ms := by
-  simp [heights, Function.comp_def]
+  simp [heights, gmap, Function.comp_def]
 
 theorem topR_hom (ms : List (Nat × Expr α)) (x : Expr α) :
     topR merge (ms.map gm) (ev x) = ev (topR Expr.node ms x) := by
   induction ms with
   | nil => rfl
   | cons m r ih =>
-    simp only [List.map_cons, topR, List.length_map]
+    obtain ⟨h, v⟩ := m
+    simp only [List.map_cons, gmap, topR, List.length_map]
     split
     · simp only [Expr.eval, ih]
     · exact ih
@@ -516,10 +521,11 @@ theorem pushD_hom (ms : List (Nat × Expr α)) (x : Expr α) :
   induction ms with
   | nil => rfl
   | cons m r ih =>
-    simp only [List.map_cons, pushD, List.length_map]
+    obtain ⟨h, v⟩ := m
+    simp only [List.map_cons, gmap, pushD, List.length_map]
     split
-    · simp only [List.map_cons, List.map_nil, Expr.eval, topR_hom]
-    · simp only [List.map_cons, ih]
+    · simp only [List.map_cons, List.map_nil, gmap, Expr.eval, topR_hom]
+    · simp only [List.map_cons, gmap, ih]
 
 theorem foldl_pushD_hom (l : List (Expr α)) (ms : List (Nat × Expr α)) :
     (l.map ev).foldl (pushD merge) (ms.map gm) = (l.foldl (pushD Expr.node) ms).map gm := by
@@ -532,7 +538,8 @@ theorem bagD_hom (ms : List (Nat × Expr α)) :
   induction ms with
   | nil => rfl
   | cons m r ih =>
-    simp only [List.map_cons, bagD, ih]
+    obtain ⟨h, v⟩ := m
+    simp only [List.map_cons, gmap, bagD, ih]
     cases bagD Expr.node r with
     | none => rfl
     | some b => simp only [Option.map_some, mergePeaks_hom]
